@@ -48,10 +48,10 @@ Definition thread_rel (h v : thread) : Prop :=
   end.
 
 Ltac solve_good :=
-  split;
+  solve [ split;
   [ let A := fresh in let B := fresh in let C := fresh in let D := fresh in
     intros [A B C D]; cbn in *; constructor; cbn; auto; try lia; try discriminate
-  | unfold i5b; cbn; rewrite ?orb_true_r, ?orb_false_r; auto ].
+  | unfold i5b; cbn; rewrite ?orb_true_r, ?orb_false_r; auto ] ].
 
 Lemma lock_thread_rel h v : lock_thread h = Some v -> thread_rel h v.
 Proof.
@@ -70,8 +70,11 @@ Proof.
   unfold access_thread. intros H. destruct h as [p|x|a|]; destruct w; break_step; cbn; auto;
     destruct x; cbn in *; subst; try solve_good.
   (* WFlag at S2: the flag is re-read *)
-  intros _. match goal with Hb : Bool.eqb _ _ = true |- _ => apply Bool.eqb_prop in Hb; subst end.
-  rewrite Bool.eqb_reflx. reflexivity.
+  split.
+  - intros [A B C D]; cbn in *; constructor; cbn; auto; discriminate.
+  - intros _. unfold i5b; cbn.
+    match goal with Hb : Bool.eqb _ _ = true |- _ => apply Bool.eqb_prop in Hb; subst end.
+    rewrite Bool.eqb_reflx. reflexivity.
 Qed.
 
 Lemma hookcall_thread_rel h v : hookcall_thread h = Some v -> thread_rel h v.
@@ -93,7 +96,7 @@ Proof.
     unfold apply_ticker; cbn. split.
     + intros [A B C D]; cbn in *.
       destruct t_last, t_cyclic, t_armed, t_gotwake; cbn in *; constructor; cbn; auto; try lia; try discriminate;
-        try (specialize (B eq_refl); discriminate).
+        try (specialize (B eq_refl); discriminate); try (destruct t_tick; cbn; lia).
     + unfold i5b; cbn. destruct t_last, t_cyclic, t_armed, t_gotwake; cbn; rewrite ?orb_true_r, ?orb_false_r; auto.
   - (* TickTake *)
     split.
@@ -159,9 +162,9 @@ Proof.
   - destruct (th s t) eqn:Et; try discriminate. destruct (tx_local (cancelled s) x (TickTake t)) eqn:E; inv H. eapply tx_one; eauto.
   - destruct (th s t) eqn:Et; try discriminate. destruct (tx_local (cancelled s) x (Transmit t f ok)) eqn:E; inv H. eapply tx_one; eauto.
   - (* SetFlag *) destruct (th s a) eqn:Ea; try discriminate. destruct (th s m) eqn:Em; try discriminate.
-    destruct (a_pc a0) eqn:Eap; inv H. eapply sh_setflag; eauto.
+    destruct (a_pc a0) eqn:Eap; inv H. eapply sh_setflag; eauto; reflexivity.
   - (* WakeSend *) destruct (th s a) eqn:Ea; try discriminate. destruct (th s m) eqn:Em; try discriminate.
-    destruct (a_pc a0) eqn:Eap; try discriminate. destruct (Nat.eqb_spec m0 m); inv H. eapply sh_wakesend; eauto.
+    destruct (a_pc a0) eqn:Eap; try discriminate. destruct (Nat.eqb_spec m0 m); inv H. eapply sh_wakesend; eauto; reflexivity.
   - (* Offer *) destruct (th s a) eqn:Ea; try discriminate. destruct (th s m) eqn:Em; try discriminate.
     destruct (a_pc a0) eqn:Eap; inv H. eapply sh_one; [reflexivity|]. rewrite Ea. cbn. intros; congruence.
   - destruct (th s a) eqn:Ea; try discriminate. destruct (a_pc a0) eqn:Eap; inv H.
@@ -369,50 +372,35 @@ Proof.
   destruct e; cbn [step_fn] in H; unfold on_thread in H.
   all: try (destruct (Nat.eq_dec t0 t) as [->|Hne];
     [ rewrite Ht in H; cbn in H; unfold tx_local in H; rewrite ?Hpc in H; cbn in H; break_step
-    | break_step; cbn; rewrite Hsame by auto; exists x; auto ]; fail).
-  - (* Lock *) destruct (Nat.eq_dec t0 t) as [->|Hne].
-    + rewrite Ht in H. cbn in H. rewrite Hpc in H. break_step.
-    + break_step; cbn; rewrite Hsame by auto; exists x; auto.
-  - destruct (Nat.eq_dec t0 t) as [->|Hne].
-    + rewrite Ht in H. cbn in H. rewrite Hpc in H. break_step.
-    + break_step; cbn; rewrite Hsame by auto; exists x; auto.
-  - destruct (Nat.eq_dec t0 t) as [->|Hne].
-    + rewrite Ht in H. cbn in H. destruct w; rewrite ?Hpc in H; break_step.
-    + break_step; cbn; rewrite Hsame by auto; exists x; auto.
-  - destruct (Nat.eq_dec t0 t) as [->|Hne].
-    + rewrite Ht in H. cbn in H. rewrite Hpc in H. break_step.
-    + break_step; cbn; rewrite Hsame by auto; exists x; auto.
-  - destruct (Nat.eq_dec t0 t) as [->|Hne].
-    + rewrite Ht in H. cbn in H. rewrite Hpc in H. break_step.
-    + break_step; cbn; rewrite Hsame by auto; exists x; auto.
+    | break_step; cbn; rewrite Hsame by auto; exists x; repeat split; auto ]; fail).
   - (* Mutate t0 m v *) destruct (can_mutate (th s t0)); [|discriminate].
     destruct (Nat.eq_dec m t) as [->|Hne].
     + rewrite Ht in H. inv H. cbn. unfold upd. rewrite Nat.eqb_refl. eexists; split; [reflexivity|].
-      destruct x; cbn in *; auto.
-    + break_step; cbn; rewrite Hsame by auto; exists x; auto.
+      destruct x; cbn in *; repeat split; auto.
+    + break_step; cbn; rewrite Hsame by auto; exists x; repeat split; auto.
   - (* Accept t0 a *) destruct (Nat.eq_dec t0 t) as [->|Hne].
     + rewrite Ht in H. rewrite Hpc in H. break_step.
     + break_step. cbn. unfold upd. destruct (Nat.eqb_spec t a) as [->|]; [congruence|].
-      destruct (Nat.eqb_spec t t0); [congruence|]. exists x; auto.
+      destruct (Nat.eqb_spec t t0); [congruence|]. exists x; repeat split; auto.
   - (* SetFlag a m b *) destruct (th s a) eqn:Ea; try discriminate. destruct (th s m) eqn:Em; try discriminate.
     destruct (a_pc a0); inv H. cbn. unfold upd.
     destruct (Nat.eqb_spec t a) as [->|]; [congruence|].
-    destruct (Nat.eqb_spec t m) as [->|]; [|exists x; auto].
-    rewrite Ht in Em. inv Em. eexists; split; [reflexivity|]. destruct x0; cbn in *; auto.
+    destruct (Nat.eqb_spec t m) as [->|]; [|exists x; repeat split; auto].
+    rewrite Ht in Em. inv Em. eexists; split; [reflexivity|]. destruct x0; cbn in *; repeat split; auto.
   - (* WakeSend *) destruct (th s a) eqn:Ea; try discriminate. destruct (th s m) eqn:Em; try discriminate.
     destruct (a_pc a0); try discriminate. destruct (Nat.eqb m0 m); inv H. cbn. unfold upd.
     destruct (Nat.eqb_spec t a) as [->|]; [congruence|].
-    destruct (Nat.eqb_spec t m) as [->|]; [|exists x; auto].
-    rewrite Ht in Em. inv Em. eexists; split; [reflexivity|]. destruct x0; cbn in *; auto.
+    destruct (Nat.eqb_spec t m) as [->|]; [|exists x; repeat split; auto].
+    rewrite Ht in Em. inv Em. eexists; split; [reflexivity|]. destruct x0; cbn in *; repeat split; auto.
   - (* Offer *) destruct (th s a) eqn:Ea; try discriminate. destruct (th s m); try discriminate.
-    destruct (a_pc a0); inv H. cbn. unfold upd. destruct (Nat.eqb_spec t a) as [->|]; [congruence|]. exists x; auto.
+    destruct (a_pc a0); inv H. cbn. unfold upd. destruct (Nat.eqb_spec t a) as [->|]; [congruence|]. exists x; repeat split; auto.
   - destruct (th s a) eqn:Ea; try discriminate. destruct (a_pc a0); inv H. cbn. unfold upd.
-    destruct (Nat.eqb_spec t a) as [->|]; [congruence|]. exists x; auto.
+    destruct (Nat.eqb_spec t a) as [->|]; [congruence|]. exists x; repeat split; auto.
   - (* Tick *) destruct (Nat.eq_dec t0 t) as [->|Hne].
-    + rewrite Ht in H. cbn in H. unfold tx_local in H. rewrite Hpc in H. break_step. cbn. unfold upd. rewrite Nat.eqb_refl.
-      eexists; split; [reflexivity|]. destruct x; cbn in *; auto.
-    + break_step; cbn; rewrite Hsame by auto; exists x; auto.
-  - inv H. cbn. exists x; auto.
+    + rewrite Ht in H. cbn in H. unfold tx_local in H. rewrite ?Hpc in H. break_step. cbn. unfold upd. rewrite Nat.eqb_refl.
+      eexists; split; [reflexivity|]. destruct x; cbn in *; repeat split; auto.
+    + break_step; cbn; rewrite Hsame by auto; exists x; repeat split; auto.
+  - inv H. cbn. exists x; repeat split; auto.
 Qed.
 
 (** after Done no event of the thread itself is enabled: no new X1 is entered, nothing is transmitted *)
@@ -423,7 +411,7 @@ Proof.
     unfold tx_local; rewrite ?Hpc; auto.
   - destruct (owner s); auto.
   - destruct w; rewrite ?Hpc; auto.
-  - destruct (th s m); auto.
+  - destruct (th s a); auto.
 Qed.
 
 (** once cancelled, a parked transmitter can return nil; a parked transmitter that is not
@@ -433,7 +421,10 @@ Theorem sel_returns_nil_iff_cancelled s t x :
   ((exists s', step_fn s (Done t true) = Some s') <-> cancelled s = true) /\ step_fn s (Done t false) = None.
 Proof.
   intros Ht Hpc. cbn. rewrite Ht. cbn. unfold tx_local. rewrite Hpc. split.
-  - destruct (cancelled s); cbn; split; intros H; auto; try (eexists; reflexivity); destruct H; discriminate.
+  - destruct (cancelled s); cbn; split; intros H; auto.
+    + eexists; reflexivity.
+    + destruct H as [s' H]; discriminate.
+    + discriminate.
   - rewrite andb_false_r. reflexivity.
 Qed.
 
@@ -445,7 +436,7 @@ Proof.
     unfold tx_local in H; rewrite ?Hpc in H; try discriminate.
   - destruct (owner s); discriminate.
   - destruct w; rewrite ?Hpc in H; discriminate.
-  - destruct (th s m); discriminate.
+  - destruct (th s a); discriminate.
   - destruct ok; [discriminate|reflexivity].
 Qed.
 
@@ -528,19 +519,16 @@ Definition receiver_spec (fs : list rframe) (end_ok : bool) : list ract * rres :
   | [] => (flat_map acts_of_good (take_good ks), if end_ok then ResNil else ResRecv)
   | f :: _ =>
       if f_unm_ok f
-      then (flat_map acts_of_good (take_good ks) ++ [ActApply (f_id f); ActHook (f_id f)], ResHook (f_id f))
-      else (flat_map acts_of_good (take_good ks) ++ [ActApply (f_id f)], ResUnmarshal (f_id f))
+      then ((flat_map acts_of_good (take_good ks) ++ [ActApply (f_id f); ActHook (f_id f)])%list, ResHook (f_id f))
+      else ((flat_map acts_of_good (take_good ks) ++ [ActApply (f_id f)])%list, ResUnmarshal (f_id f))
   end.
 
 Theorem run_receiver_meets_spec fs end_ok : run_receiver fs end_ok = receiver_spec fs end_ok.
 Proof.
   unfold receiver_spec. induction fs as [|f tl IH]; cbn; auto.
   destruct (f_known f); cbn; auto.
-  unfold rgood at 1 3. destruct (f_unm_ok f) eqn:Eu; cbn.
-  - destruct (f_hook_ok f) eqn:Eh; cbn.
-    + rewrite IH. destruct (drop_good (filter f_known tl)) as [|g ?]; cbn; auto. destruct (f_unm_ok g); reflexivity.
-    + rewrite Eu. reflexivity.
-  - rewrite Eu. reflexivity.
+  unfold rgood. destruct (f_unm_ok f) eqn:Eu, (f_hook_ok f) eqn:Eh; cbn; rewrite ?Eu; try reflexivity.
+  rewrite IH. destruct (drop_good (filter f_known tl)) as [|g l]; cbn; auto. destruct (f_unm_ok g); reflexivity.
 Qed.
 
 (** one hook call per applied frame, in order; every hook call is preceded by its apply *)
@@ -565,26 +553,61 @@ Qed.
 (** the LTS performs exactly this loop: the event sequence of the pure function is accepted from
     the initial state of any configuration in which [t] is a receiver and the mutex is only
     used by it, and it ends in RDone *)
+Lemma th_set_same s t v : th (set_th s t v) t = v.
+Proof. cbn. unfold upd. rewrite Nat.eqb_refl. reflexivity. Qed.
+
+Lemma st_recv s t ok : th s t = TRx R0 -> step_fn s (Recv t ok) = Some (set_th s t (TRx (if ok then R1 else RErr))).
+Proof. intros H. cbn. rewrite H. reflexivity. Qed.
+Lemma st_rxframe s t : th s t = TRx R1 -> step_fn s (RxFrame t) = Some (set_th s t (TRx R2)).
+Proof. intros H. cbn. rewrite H. reflexivity. Qed.
+Lemma st_lookup s t k : th s t = TRx R2 -> step_fn s (Lookup t k) = Some (set_th s t (TRx (if k then R3 else R0))).
+Proof. intros H. cbn. rewrite H. reflexivity. Qed.
+Lemma st_lock_rx s t : th s t = TRx R3 -> owner s = None ->
+  step_fn s (Lock t) = Some (mkState (Some t) (cancelled s) (upd (th s) t (TRx R4))).
+Proof. intros H Ho. cbn. rewrite Ho, H. reflexivity. Qed.
+Lemma st_access_rx s t p w p' : th s t = TRx p -> access_thread (TRx p) w = Some (TRx p') ->
+  step_fn s (Access t w) = Some (set_th s t (TRx p')).
+Proof. intros H E. cbn [step_fn]. unfold on_thread. rewrite H, E. reflexivity. Qed.
+Lemma st_unlock_rx s t ok : th s t = TRx (R7 ok) ->
+  step_fn s (Unlock t) = Some (mkState None (cancelled s) (upd (th s) t (TRx (if ok then R8 else REnd false)))).
+Proof. intros H. cbn. rewrite H. reflexivity. Qed.
+Lemma st_hookcall_rx s t : th s t = TRx R8 -> step_fn s (HookCall t) = Some (set_th s t (TRx RH)).
+Proof. intros H. cbn. unfold on_thread. rewrite H. reflexivity. Qed.
+Lemma st_hookret_rx s t ok : th s t = TRx RH ->
+  step_fn s (HookRet t ok) = Some (set_th s t (TRx (if ok then R0 else REnd false))).
+Proof. intros H. cbn. unfold on_thread. rewrite H. reflexivity. Qed.
+Lemma st_recverr s t ok : th s t = TRx RErr -> step_fn s (RecvErr t ok) = Some (set_th s t (TRx (REnd ok))).
+Proof. intros H. cbn. rewrite H. reflexivity. Qed.
+Lemma st_done_rx s t ok : th s t = TRx (REnd ok) -> step_fn s (Done t ok) = Some (set_th s t (TRx RDone)).
+Proof. intros H. cbn. rewrite H. cbn. rewrite Bool.eqb_reflx. reflexivity. Qed.
+
+Ltac th_now := cbn; unfold upd; rewrite ?Nat.eqb_refl; reflexivity.
+
 Lemma rx_trace_run t fs end_ok : forall s,
   owner s = None -> th s t = TRx R0 ->
   exists s', run s (rx_trace t fs end_ok) = Some s' /\ th s' t = TRx RDone /\ owner s' = None.
 Proof.
   induction fs as [|f tl IH]; intros s Ho Ht.
-  - cbn. rewrite Ht. cbn. unfold upd. rewrite !Nat.eqb_refl. cbn. rewrite Bool.eqb_reflx. cbn.
-    eexists. split; [reflexivity|]. cbn. unfold upd. rewrite Nat.eqb_refl. auto.
-  - cbn [rx_trace run]. cbn [step_fn]. rewrite Ht. cbn. unfold upd at 1. rewrite Nat.eqb_refl. cbn.
-    unfold upd at 1. rewrite Nat.eqb_refl. cbn.
-    destruct (f_known f); cbn.
-    + rewrite Ho. unfold upd at 1. rewrite Nat.eqb_refl. cbn. unfold on_thread. cbn.
-      unfold upd at 1. rewrite Nat.eqb_refl. cbn. unfold upd at 1. rewrite Nat.eqb_refl. cbn.
-      unfold upd at 1. rewrite Nat.eqb_refl. cbn. unfold upd at 1. rewrite Nat.eqb_refl. cbn.
-      destruct (f_unm_ok f); cbn.
-      * unfold upd at 1. rewrite Nat.eqb_refl. cbn. unfold upd at 1. rewrite Nat.eqb_refl. cbn.
-        destruct (f_hook_ok f); cbn.
-        -- apply IH; cbn; auto. unfold upd. rewrite Nat.eqb_refl. reflexivity.
-        -- unfold upd at 1. rewrite Nat.eqb_refl. cbn. eexists. split; [reflexivity|]. cbn. unfold upd. rewrite Nat.eqb_refl. auto.
-      * unfold upd at 1. rewrite Nat.eqb_refl. cbn. eexists. split; [reflexivity|]. cbn. unfold upd. rewrite Nat.eqb_refl. auto.
-    + apply IH; cbn; auto. unfold upd. rewrite Nat.eqb_refl. reflexivity.
+  - cbn [rx_trace run].
+    rewrite (st_recv _ _ false Ht). rewrite (st_recverr _ _ end_ok) by th_now.
+    rewrite st_done_rx by th_now. eexists. split; [reflexivity|]. split; [th_now | exact Ho].
+  - cbn [rx_trace run].
+    rewrite (st_recv _ _ true Ht). rewrite st_rxframe by th_now. rewrite st_lookup by th_now.
+    destruct (f_known f); cbn [negb].
+    + cbn [run]. rewrite st_lock_rx by (th_now || exact Ho).
+      rewrite (st_access_rx _ _ R4 WHook R5) by (th_now || reflexivity).
+      rewrite (st_access_rx _ _ R5 WTime R6) by (th_now || reflexivity).
+      rewrite (st_access_rx _ _ R6 (WUnmarshal (f_unm_ok f)) (R7 (f_unm_ok f))) by (th_now || reflexivity).
+      rewrite (st_unlock_rx _ _ (f_unm_ok f)) by th_now.
+      destruct (f_unm_ok f); cbn [negb].
+      * cbn [run]. rewrite st_hookcall_rx by th_now. rewrite (st_hookret_rx _ _ (f_hook_ok f)) by th_now.
+        destruct (f_hook_ok f); cbn [negb].
+        -- apply IH; [reflexivity | th_now].
+        -- cbn [run]. rewrite (st_done_rx _ _ false) by th_now.
+           eexists. split; [reflexivity|]. split; [th_now | reflexivity].
+      * cbn [run]. rewrite (st_done_rx _ _ false) by th_now.
+        eexists. split; [reflexivity|]. split; [th_now | reflexivity].
+    + apply IH; [exact Ho | th_now].
 Qed.
 
 Theorem rx_trace_accepted cfg t fs end_ok :
